@@ -288,6 +288,7 @@ func properties() map[string]*PropertySpec {
 				Bound: "a StartTLS request pipelined behind a request whose handler may still be in flight and followed by another request; spawn-order schedules; the same two partial-order queries per bufio.Writer object (Write, Flush, Reset)"},
 			{Name: "H_C05_shutdown_notice", Native: true, Reach: []string{"shutdown notice"}, PO: poC05,
 				Bound: "1..2 handlers in flight when the shutdown context is cancelled between two reads: the notice of disconnection vs. the handlers' responses; spawn-order schedules; the same partial-order queries"},
+			eng("H_C05_partial", "partial", "server with a write timeout, a 20 000-byte response cut off by the deadline after half of it was sent, then a second response on the same connection", ""),
 			nat("H_C05_bigframes", "big frame", "one response with a concrete diagnostic message of 100 B ... 70 000 B (sizes around 4 KiB, 16 KiB, 64 KiB)", ""),
 			nat("H_C05_step", "step", "one Write from an empty buffer and a free lock, write succeeds or fails, strings < 24 bytes", ""),
 		}})
